@@ -493,6 +493,11 @@ pub fn run_case(c: &Case) -> CaseResult {
         }
         // ----- read the schedule back from the contracts -----
         let pre = read_pre(&w);
+        // MintCount as the minter reports it for the sender (public + whitelist on the non-flex variants)
+        let count_before: u64 = match cop {
+            COp::MintP { who, .. } | COp::S(Op::Mint { who, .. }) | COp::S(Op::MintM { who, .. }) => w.mint_count(who).0,
+            _ => 0,
+        };
         let bal_before = w.balances_raw();
         let cur = pre.wl.as_ref().and_then(|a| wls.iter().position(|i| i.addr.as_str() == a));
         res.instants.insert(format!("{}@{}", kind_of(cop), pre.now as i128 - w.t0 as i128));
@@ -699,12 +704,12 @@ pub fn run_case(c: &Case) -> CaseResult {
             } else {
                 // the sale window is open: a buyer who meets every public condition is served
                 if !active && pre.now >= pre.start && exact(&pre.public_price) && pre.mintable > 0
-                    && *pub_ok.get(&who).unwrap_or(&0) < pre.pal && (pre.wl.is_none() || pre.active_cfg == Some(false))
+                    && *pub_ok.get(&who).unwrap_or(&0) < pre.pal && count_before < pre.pal && (pre.wl.is_none() || pre.active_cfg == Some(false))
                 {
                     res.violations.push((
                         "C04:public-mint-rejected-inside-window".into(),
-                        format!("{}: {:?} failed at {} >= start {} with no active whitelist, exact price, {} mintable, {} of {} public mints used: {:?}",
-                            vname, cop, pre.now, pre.start, pre.mintable, pub_ok.get(&who).unwrap_or(&0), pre.pal, out.err),
+                        format!("{}: {:?} failed at {} >= start {} with no active whitelist, exact price, {} mintable, MintCount {} of {}: {:?}",
+                            vname, cop, pre.now, pre.start, pre.mintable, count_before, pre.pal, out.err),
                         oi,
                     ));
                 }
@@ -1064,7 +1069,7 @@ fn set_whitelist_cases(variant: usize, kind: Kind) -> Vec<Case> {
 
 /// structured random histories: the clock jumps between boundary instants (+-1ns) of the
 /// case's own schedule; mints, schedule updates and whitelist changes in any order
-fn random_case(rng: &mut Rng, variant: usize, n: usize) -> Case {
+fn random_case(rng: &mut Rng, variant: usize, n: usize, lits: &[u128]) -> Case {
     let kinds = compatible(variant);
     let kind = *rng.pick(kinds);
     let sh = rng.below(3) as usize;
@@ -1104,7 +1109,8 @@ fn random_case(rng: &mut Rng, variant: usize, n: usize) -> Case {
             22..=66 => {
                 let who = *rng.pick(&buyers);
                 let prices: Vec<u128> = spec.stages.iter().map(|s| s.price).chain([PUB, 65, PUB - 1]).collect();
-                let p = *rng.pick(&prices);
+                // now and then an amount next to a literal of the contract source
+                let p = if !lits.is_empty() && rng.chance(1, 12) { *rng.pick(lits) } else { *rng.pick(&prices) };
                 if VARIANTS[variant].merkle && rng.chance(2, 3) {
                     let pf = match rng.below(4) {
                         0 => None,
@@ -1220,11 +1226,16 @@ pub fn run(a: &Args) {
     } else {
         let mut rng = Rng::new(a.seed);
         let mut v = corpus(a.thorough(), &mut rng);
+        let lits: Vec<u128> = harvest_literals(&["contracts/minters/vending-minter/src/contract.rs", "contracts/minters/vending-minter-merkle-wl/src/contract.rs"])
+            .into_iter()
+            .flat_map(|x| [x.saturating_sub(1), x, x + 1])
+            .filter(|x| *x > 0 && *x < 1_000_000)
+            .collect();
         let per_variant = if a.thorough() { 40 } else { 4 };
         for variant in 0..6 {
             for _ in 0..per_variant {
                 let n = if a.thorough() { 60 } else { 36 };
-                v.push(random_case(&mut rng, variant, n));
+                v.push(random_case(&mut rng, variant, n, &lits));
             }
             v.push(malformed_case(&mut rng, variant));
         }
